@@ -102,6 +102,31 @@ def rule_F2(ctx):
                         if isinstance(e, ast.Name):
                             names[e.id] = cached[callee[0]]
             r.ok(f"{caller.key}:{norm(cs.node)}")
+        # containers built from cached results (list / comprehension / tuple holding the call) hand the taint to what is
+        # taken out of them by subscript or iteration
+        containers = set()
+        for (callee, cs) in edges:
+            if callee[0] in cached and isinstance(cs.stmt, ast.Assign):
+                for y in ast.walk(cs.stmt.value):
+                    if isinstance(y, (ast.List, ast.ListComp, ast.Tuple, ast.GeneratorExp, ast.Dict)) and any(cs.node is z for z in ast.walk(y)) \
+                            and y is not cs.stmt.value.__class__ :
+                        inner_sub = [z for z in ast.walk(y) if isinstance(z, ast.Subscript) and any(cs.node is w for w in ast.walk(z.value))]
+                        for t in cs.stmt.targets:
+                            if isinstance(t, ast.Name) and (isinstance(cs.stmt.value, (ast.List, ast.ListComp, ast.Tuple)) ):
+                                containers.add(t.id)
+                                names.pop(t.id, None)
+        if containers:
+            for x in own_walk(caller.node):
+                if isinstance(x, ast.Assign) and len(x.targets) == 1 and isinstance(x.targets[0], ast.Name):
+                    vals = [x.value.body, x.value.orelse] if isinstance(x.value, ast.IfExp) else [x.value]
+                    for v in vals:
+                        if isinstance(v, ast.Subscript) and isinstance(v.value, ast.Name) and v.value.id in containers and not isinstance(v.slice, ast.Slice):
+                            names[x.targets[0].id] = next(iter(cached.values()))
+                if isinstance(x, (ast.For, ast.comprehension)) and isinstance(x.target, ast.Name):
+                    it = x.iter
+                    base = it.value if isinstance(it, ast.Subscript) else it
+                    if isinstance(base, ast.Name) and base.id in containers:
+                        names[x.target.id] = next(iter(cached.values()))
         if not names:
             continue
         # plain aliases of a tainted name are tainted too
@@ -354,4 +379,31 @@ def rule_F4(ctx):
         for opt, node in ctx.option_reads(g, n[1]):
             r.fail(f.key, f"options.{opt} via {g.key}", f"interpretation used to build the constant table reads options.{opt}", loc=g.loc(node))
     r.ok('getters', {'instance': 'Array._largest_values getters', 'reachable': len(parent)})
+    return r
+
+
+def rule_F5(ctx):
+    """The cache key distinguishes everything the memoised function distinguishes: numbers that compare equal but behave
+    differently (2 and 2.0 and True; 0.0 and -0.0) must not share an entry."""
+    m = ctx.m
+    r = RuleResult('F5', 'memoised functions with numeric parameters use a typed key; float-valued inputs are not memoised')
+    for f in cached_functions(ctx):
+        typed = any('typed=True' in d.replace(' ', '') for d in f.decorators)
+        a = f.node.args
+        for arg in a.posonlyargs + a.args + a.kwonlyargs:
+            ann = ast.unparse(arg.annotation) if arg.annotation is not None else ''
+            has_float = 'float' in ann
+            has_int = 'int' in ann or 'bool' in ann
+            if not (has_float or (has_int and 'Union' in ann and 'float' in ann)):
+                r.ok(f'{f.key}:{arg.arg}', trivial=True)
+                continue
+            if has_float and has_int and not typed:
+                r.fail(f.key, f'{arg.arg}: {ann} without typed=True', f"'{arg.arg}' may be an int or a float; lru_cache treats 2, 2.0 and True as the same key, "
+                       'so the result computed for the first of them is returned for the others (e.g. an integer scale instead of a float one): the result '
+                       'depends on which call came first', loc=f.loc())
+            elif has_float and not has_int:
+                r.fail(f.key, f'{arg.arg}: {ann} used as a cache key', f"'{arg.arg}' is a float: 0.0 and -0.0 compare equal and share a cache entry although they "
+                       'encode differently, so whichever was seen first is returned for both', loc=f.loc())
+            else:
+                r.ok(f'{f.key}:{arg.arg}', {'instance': f.key, 'parameter': arg.arg, 'annotation': ann, 'typed': typed})
     return r
